@@ -94,7 +94,7 @@ func (t *Tree[E]) replayGames(pos int) {
 	for n != 0 {
 		// If n.value < pos.value then pos loses.
 		// If they are equal, pos wins because n could be a sequence that ended, with value maxval.
-		if t.nodes[n].value < t.nodes[pos].value {
+		if t.less(t.nodes[n].index, pos) {
 			loser := pos
 			// Record pos as the loser here, and the old loser is the new winner.
 			pos = t.nodes[n].index
@@ -130,10 +130,20 @@ func (t *Tree[E]) sequenceEnded(pos int) {
 }
 
 func (t *Tree[E]) playGame(a, b int) (loser, winner int) {
-	if t.nodes[a].value < t.nodes[b].value {
+	if t.less(a, b) {
 		return b, a
 	}
 	return a, b
+}
+
+// less reports whether leaf node a beats leaf node b. A sequence that has ended carries maxVal;
+// it must lose against a live sequence whose current value happens to be maxVal too, otherwise
+// that value (and whatever follows it) would be dropped from the merge.
+func (t *Tree[E]) less(a, b int) bool {
+	if t.nodes[a].value != t.nodes[b].value {
+		return t.nodes[a].value < t.nodes[b].value
+	}
+	return t.nodes[a].index != -1 && t.nodes[b].index == -1
 }
 
 func parent(i int) int { return i / 2 }
